@@ -674,7 +674,8 @@ def rejected_edits(s, spec):
     for n, rec in d.items():
         if rec["children"]:
             calls.append(lambda n=n: s.change_comp(n, comp=PLoad(n, pwr=0.5)))          # a load cannot have children
-            calls.append(lambda n=n: s.change_comp(n, comp=Source(n + "_x", vo=1.0), rail="zz_free_rail"))   # refused late, with a rail argument
+            if rec["k"] != "Source":
+                calls.append(lambda n=n: s.change_comp(n, comp=Source(n + "_x", vo=1.0), rail="zz_free_rail"))   # refused late (a non-root cannot become a source), with a rail argument
         if rec["k"] != "Source":
             calls.append(lambda n=n: s.change_comp(n, comp=Source(n, vo=1.0)))          # only a source can become a source
             calls.append(lambda n=n: s.add_source(Source(n, vo=2.0)))                   # name in use
@@ -682,7 +683,7 @@ def rejected_edits(s, spec):
             calls.append(lambda n=n: s.change_comp(n, comp=RLoss(n, rs=1.0)))           # a source stays a source
         if rec["k"] in LOADS:
             calls.append(lambda n=n: s.add_comp(n, comp=RLoss("zz_" + n, rs=1.0)))      # loads feed nothing
-        calls.append(lambda n=n: s.add_comp(n if rec["k"] not in LOADS else spec["comps"][0]["n"], comp=RLoss(n, rs=1.0)))   # name in use
+        calls.append(lambda n=n, rec=rec: s.add_comp(n if rec["k"] not in LOADS else spec["comps"][0]["n"], comp=RLoss(n, rs=1.0)))   # name in use
         calls.append(lambda n=n: s.set_comp_phases(n, 5))                               # neither dict nor list
         if rec["k"] not in LOADS:   # replacement under the same name whose rail collides with another component's name
             other = [m for m in d if m != n][0] if len(d) > 1 else None
